@@ -276,7 +276,7 @@ def gen_map_pair(rng):
 
 def gen(tier, rng, boost=1):
     quick = tier == "quick"
-    n = (700 if quick else 8000) * boost
+    n = (700 if quick else 60000) * boost
     for _ in range(n):
         pool, lit, ops = gen_program(rng)
         line, exp = build(pool, lit, ops)
@@ -287,7 +287,7 @@ def gen(tier, rng, boost=1):
     m2 = ("map", [(kb, num(2.0)), (ka, num(1.0))])
     from props.C12 import pair_case
     yield from pair_case(m1, m2, "mapeq-witness")
-    n = (400 if quick else 5000) * boost
+    n = (400 if quick else 30000) * boost
     for i in range(n):
         a, b = gen_map_pair(rng)
         yield from pair_case(a, b, "mapeq", text=(i % 2 == 0))
